@@ -17,6 +17,8 @@ inductive Ty where
   | lambda (a b : Ty)
   | map (k v : Ty)
   | set (t : Ty)
+  /-- `big_map k v` -/
+  | bigMap (k v : Ty)
   deriving DecidableEq, Repr, Inhabited
 
 mutual
@@ -47,6 +49,10 @@ mutual
     | opTransfer (source dest ep : List Nat) (amount : Int) (param : Val) (pty : Ty)
     | opDelegate (source : List Nat) (delegate : Option (List Nat))
     | opEmit (source tag : List Nat) (ty : Ty) (payload : Val)
+    /-- `big_map k v` inside one run: the bindings (`pair key value`, in key order) it denotes.  pytezos also keeps a
+    temporary id and the list of removed keys (the lazy diff: property C15's model); neither changes an answer of MEM / GET /
+    UPDATE / GET_AND_UPDATE on a map created in the run (no context value behind it) -/
+    | bigMap (k v : Ty) (items : List Val)
   inductive Instr where
     | seq (is : List Instr)
     | DROP | DROPN (n : Nat) | DUP | DUPN (n : Nat) | SWAP | DIG (n : Nat) | DUG (n : Nat)
@@ -80,6 +86,8 @@ mutual
     | UNPACK (t : Ty)
     /- phase 3: signature verification (the verification function is a parameter: `Hashes.checkSig`) -/
     | CHECK_SIGNATURE
+    /- phase 2: big maps created in the run -/
+    | EMPTY_BIG_MAP (k v : Ty)
 end
 
 instance : Inhabited Val := ⟨.unit⟩
@@ -208,6 +216,7 @@ def typeOf : Val → Ty
   | .lam a b _ => .lambda a b
   | .contract t _ => .contract t
   | .opTransfer .. | .opDelegate .. | .opEmit .. => .operation
+  | .bigMap k v _ => .bigMap k v
 
 /-! Address texts: `KT1…` / `tz1…`, optionally followed by `%entrypoint` (37 = `%`); no entrypoint means `default`. -/
 def defaultEp : List Nat := [100, 101, 102, 97, 117, 108, 116]      -- "default"
